@@ -3,6 +3,9 @@
 #[macro_use]
 pub mod error;
 
+#[cfg(feature = "verif")]
+pub mod verif_hooks;
+
 #[macro_use]
 pub mod engine_threading;
 
@@ -1808,6 +1811,8 @@ fn check_should_abort(
     retrigger_compilation: Option<Arc<AtomicBool>>,
 ) -> Result<(), ErrorEmitted> {
     if let Some(ref retrigger_compilation) = retrigger_compilation {
+        #[cfg(feature = "verif")]
+        crate::verif_hooks::point("core.check_should_abort");
         if retrigger_compilation.load(Ordering::SeqCst) {
             return Err(handler.cancel());
         }
